@@ -81,42 +81,56 @@ def _flags_const(kinds):
     return all(isinstance(flag, int) for c, name, flag in kinds if LIBC[c.path] == 3)
 
 
+def _wrapper_shape(f):
+    """`fn(&[u8]) -> Result<(), io::Error>`: the signature of an OS-call wrapper on a region"""
+    if f.kind == "closure" or f.argc != 1:
+        return False
+    a, r = f.locals[1]["t"], f.locals[0]["t"]
+    return a.replace("'_ ", "") in ("&[u8]", "&mut [u8]") and r.startswith("std::result::Result<(), std::io::Error")
+
+
 def wrappers(prog):
-    """crate functions that issue a libc memory call with a *constant* flag -> classification.
-    A function that calls libc with a flag it receives as a parameter is a generic helper, not a
-    wrapper: its callers are classified on the view with the helper folded in (so
-    `dryoc_mprotect_readonly` stays the ReadOnly wrapper whether it calls mprotect itself or through
-    a shared `unix_mprotect(data, prot)`)."""
+    """crate functions of wrapper shape (`fn(&[u8]) -> io::Result<()>`) whose body - private helpers
+    folded in - issues libc memory calls with *constant* flags -> classification.  Layers are
+    transparent: with `dryoc_mprotect_readonly -> dryoc_mprotect(data, access) -> sys::protect(..) ->
+    libc::mprotect(.., access.flags())` the wrapper is the outermost function of that shape (the one the
+    transitions, the allocator and Drop call); a function that calls libc with a flag it receives as a
+    parameter is a generic helper, not a wrapper.  Functions that call libc directly but are not of
+    wrapper shape (none on the pinned tree) are kept as wrappers too, so their calls are still checked."""
+    if getattr(prog, "_c14_ws", None) is not None:
+        return prog._c14_ws
+    direct = [f for f in prog.fns if _libc_kinds(f)]
+    reach = cm.can_reach(prog, direct)
+    cand, views, generic = {}, {}, set()
+    for k in reach:
+        f = prog.by_key[k]
+        if f.kind == "closure":
+            continue
+        own = _libc_kinds(f)
+        if not (_wrapper_shape(f) or own):
+            continue
+        v = inline(prog, f, pick=lambda call, t: t.kind != "closure" and t.vis != "pub" and t.path.startswith("protected::") and not _is_transition(t))
+        kinds = _libc_kinds(v)
+        if kinds and _flags_const(kinds):
+            cand[k] = kinds
+            views[k] = v
+        elif kinds:
+            generic.add(k)
+    # inner layers: every caller is itself a wrapper candidate (or a generic helper folded into one)
     out = {}
-    views = {}
-    generic = set()
-    for f in prog.fns:
-        kinds = _libc_kinds(f)
-        if kinds:
-            if _flags_const(kinds):
-                out[f.key] = kinds
-                views[f.key] = f
-            else:
-                generic.add(f.key)
-    for _ in range(3):
-        if not generic:
-            break
-        nxt = set()
-        for hk in list(generic):
-            for g in prog.callers(prog.by_key[hk]):
-                if g.key in out or g.key in generic:
-                    continue
-                v = inline(prog, g, pick=lambda call, t: t.key in generic)
-                kinds = _libc_kinds(v)
-                if kinds and _flags_const(kinds):
-                    out[g.key] = kinds
-                    views[g.key] = v
-                elif kinds:
-                    nxt.add(g.key)
-        generic |= nxt
+    for k, kinds in cand.items():
+        callers = [g for g in prog.callers(prog.by_key[k]) if g.kind != "closure" or True]
+        inner = bool(callers) and all(g.key in cand or g.key in generic for g in callers)
+        if not inner:
+            out[k] = kinds
     prog._c14_views = views
     prog._c14_generic = generic
+    prog._c14_ws = out
     return out
+
+
+def _is_transition(t):
+    return "Protected<" in t.locals[0]["t"]
 
 
 def rec_of(prog):
@@ -345,15 +359,15 @@ def drop_order(rep, prog, ws, tag):
     if len(drops) != 1:
         return
     dfn = prog.by_key.get(drops[0]["items"][0]["key"])
-    # find the function (reachable from drop) that calls wrappers and a wipe of field `a`
-    seen = prog.reach_fns([dfn])
+    # the drop path as one view: Drop::drop with everything it reaches inside the module folded in
+    # (Zeroize::zeroize of the container, helpers such as `with_write_access(|a| a.zeroize())` /
+    # `release_lock()`, closures); the OS wrappers stay calls
+    gv = inline(prog, dfn, pick=lambda call, t: t.kind != "closure" and t.key not in ws and t.path.lstrip("<").startswith("protected::")
+                and (t.vis == "restricted" or t.path.endswith("as zeroize::Zeroize>::zeroize")))
     cands = []
-    for k in seen:
-        g = prog.by_key[k]
-        cs = [(c, t) for c in g.calls() for t in prog.callee_fns(c) if t.key in ws]
-        if cs:
-            cands.append((g, cs))
-    cands = [(g, cs) for g, cs in cands if g.key not in ws]
+    cs = [(c, t) for c in gv.calls() for t in prog.callee_fns(c) if t.key in ws]
+    if cs:
+        cands.append((gv, cs))
     if not cands:
         rep.violation("DROP", "drop path" + tag, "Drop for Protected reaches no unprotect/unlock wrapper", loc=dfn.loc())
         return
@@ -624,6 +638,23 @@ def lock_extent(rep, prog, tag):
     rep.floor("in-place length changes of protected storage" + tag, n, 1)
 
 
+def _holds_record_by_value(ty, rn):
+    """the type text names the record other than behind a reference or inside a callable's signature
+    (`impl FnOnce(&mut InternalData<A>)`, `fn(&InternalData<A>)` own no record)"""
+    import re
+    if ty.startswith("&") or re.match(r"^(impl |dyn |for<[^>]*> )*(Fn|FnMut|FnOnce)\b", ty) or ty.startswith(("fn(", "unsafe fn(", "extern ")):
+        return False
+    for m in re.finditer(re.escape(rn) + "<", ty):
+        i = m.start()
+        while i > 0 and (ty[i - 1].isalnum() or ty[i - 1] in "_:"):
+            i -= 1
+        before = ty[:i].rstrip()
+        if before.endswith("&") or before.endswith("&mut") or re.search(r"&'\w+( mut)?$", before) or before.endswith(("*const", "*mut")):
+            continue
+        return True
+    return False
+
+
 def drop_discipline(rep, prog, tag):
     """The raw storage record of a protected region is never dropped by crate code: it may only die
     inside Protected's own Drop (unprotect -> wipe -> unlock).  A `Drop` terminator on a value of type
@@ -638,7 +669,7 @@ def drop_discipline(rep, prog, tag):
         n += 1
         for b in range(f.n):
             t = f.blocks[b]["t"]
-            if t["k"] == "drop" and (RN + "<") in t.get("place_ty", "") and not t["place_ty"].startswith("&"):
+            if t["k"] == "drop" and _holds_record_by_value(t.get("place_ty", ""), RN):
                 bad.append((f, b, t["place_ty"]))
             if t["k"] == "call":
                 c = f.call_at(b)
